@@ -45,6 +45,11 @@ def named(a, b='b0', c='c0'):
     return (a, b, c)
 
 
+def with_axis(a, axis='axis0'):
+    """a function whose second parameter is CALLED axis"""
+    return (a, axis)
+
+
 _LIFT = {}
 
 
@@ -63,29 +68,35 @@ def rand_leaf(rng, bad=0.0):
     return rng.choice(LEAVES)
 
 
-def rand_struct(rng, depth, bad=0.0, top=False):
-    """nested lists / tuples / dicts, depth <= `depth` (a leaf has depth 0)"""
+def rand_struct(rng, depth, bad=0.0, top=False, dicts=False):
+    """nested lists / tuples / dicts, depth <= `depth` (a leaf has depth 0); `dicts`: mostly dicts, of 2-4 keys"""
     if depth == 0 or (not top and rng.random() < 0.3):
         return rand_leaf(rng, bad)
     n = rng.choice([0, 1, 2, 2, 3, 3])
     r = rng.random()
+    if dicts:
+        n = rng.choice([1, 2, 3, 3, 4])
+        r = 0.2 + 0.8 * r
     if r < 0.4:
-        return [rand_struct(rng, depth - 1, bad) for _ in range(n)]
+        return [rand_struct(rng, depth - 1, bad, dicts=dicts) for _ in range(n)]
     if r < 0.65:
-        return tuple(rand_struct(rng, depth - 1, bad) for _ in range(n))
-    return {k: rand_struct(rng, depth - 1, bad) for k in rng.sample(KEYS, n)}
+        return tuple(rand_struct(rng, depth - 1, bad, dicts=dicts) for _ in range(n))
+    return {k: rand_struct(rng, depth - 1, bad, dicts=dicts) for k in rng.sample(KEYS, n)}
 
 
-def same_shape(rng, v, stop=99, swap=True):
+def same_shape(rng, v, stop=99, swap=True, deeper=0.0):
     """a structure of the same shape (lists/tuples interchangeable when `swap`, dict keys in another order) with fresh
     leaves; below depth `stop` a scalar replaces the sub-structure"""
     if not isinstance(v, (list, tuple, dict)) or stop == 0:
+        if deeper and rng.random() < deeper:
+            # the companion is DEEPER than v here: the leaf is matched with a container, which f receives whole
+            return rng.choice([[10, 20], (30,), {'p': 1}, [], [[1, 2], [3, 4]], {'a': [5], 'b': 6}, [7, 8, 9]])
         return rng.choice([10, 20, 30, 'p', 'q', None, 7.5])
     if isinstance(v, dict):
         ks = list(v)
         rng.shuffle(ks)
-        return {k: same_shape(rng, v[k], stop - 1, swap) for k in ks}
-    items = [same_shape(rng, x, stop - 1, swap) for x in v]
+        return {k: same_shape(rng, v[k], stop - 1, swap, deeper) for k in ks}
+    items = [same_shape(rng, x, stop - 1, swap, deeper) for x in v]
     tp = type(v)
     if swap and rng.random() < 0.25:
         tp = tuple if tp is list else list
@@ -120,9 +131,12 @@ def rand_companion(rng, v):
     """returns (kind, value)"""
     r = rng.random()
     if r < 0.22:
-        return 'scalar', rng.choice([5, 'z', None, 2.5, 'text'])
-    if r < 0.5:
+        # scalars; strings as long as the looped container are scalars too (never indexed)
+        return 'scalar', rng.choice([5, 'z', None, 2.5, 'text', 'ab', 'abc', 'x' * len(v) if isinstance(v, (list, tuple, dict)) else 'q'])
+    if r < 0.4:
         return 'same', same_shape(rng, v)
+    if r < 0.5:
+        return 'deeper', same_shape(rng, v, deeper=0.5)
     if r < 0.65:
         return 'partial', same_shape(rng, v, rng.choice([1, 2]))
     if r < 0.9:
@@ -142,9 +156,9 @@ def call_line(args, kw):
     return '(lift call %s %s %s)' % (proto.hexs(TOP), enc(list(args)), enc(dict(kw)))
 
 
-def gen_call(rng, bad=0.0):
+def gen_call(rng, bad=0.0, dicts=False):
     d = rng.choice([1, 2, 2, 3, 3, 4])
-    v = rand_struct(rng, d, bad, top=True)
+    v = rand_struct(rng, d, bad, top=True, dicts=dicts)
     npos, nkw = rng.choice([(0, 0), (1, 0), (0, 1), (1, 1), (2, 0), (0, 2), (2, 1), (1, 2)])
     kinds, pos, kw = [], [], {}
     for _ in range(npos):
@@ -156,6 +170,12 @@ def gen_call(rng, bad=0.0):
         kinds.append(k)
         kw[name] = c
     bykw = npos == 0 and rng.random() < 0.3
+    clash = not bykw and rng.random() < 0.03
+    if clash:
+        # the looped argument positionally AND a keyword named like the first parameter: every leaf call is f(leaf, ..., a=...) =
+        # python's TypeError "multiple values for argument 'a'" (no leaf call, no error: an empty container comes back)
+        kw = dict(kw)
+        kw[TOP] = rand_companion(rng, v)[1]
     if bykw:
         kw = dict(kw)
         kw[TOP] = v
@@ -163,10 +183,12 @@ def gen_call(rng, bad=0.0):
     else:
         args = [v] + pos
     kind = 'none' if not kinds else ('diff' if any(k in ('diff', 'deep-diff') for k in kinds) else
-                                     'partial' if 'partial' in kinds else 'same' if 'same' in kinds else 'scalar')
+                                     'partial' if 'partial' in kinds else 'deeper' if 'deeper' in kinds else 'same' if 'same' in kinds else 'scalar')
     tag = 'lift depth=%d companions=%s%s%s' % (depth_of(v), kind, ' pos' if npos else '', ' kw' if nkw else '')
     if bykw:
         tag += ' first-by-keyword'
+    if clash:
+        tag = 'lift keyword-named-like-first-parameter'
     if bad:
         tag = 'lift raising-leaf'
     return dict(tag=tag, lines=[call_line(args, kw)])
@@ -344,6 +366,13 @@ def generate(rng, tier):
     for _ in range(800 if q else 8000):
         c = gen_call(rng, bad=0.05)
         yield dict(tag=c['tag'].replace('lift ', 'liftx ', 1), lines=[l.replace('(lift call ', '(lift callx ', 1) for l in c['lines']])
+    # dict keys that are equal but spelt differently in the companion (1 / 1.0), and keys that cannot be sorted at all
+    yield dict(tag='lifty companion keys spelt as floats', lines=['(lift cally %s %s (D))' % (proto.hexs(TOP), enc([{'a': 'A', 'b': 'B', 'd': 'D'}, {'a': 10, 'b': 20, 'd': 30}]))])
+    yield dict(tag='liftz tuple keys of mixed content', lines=['(lift callz %s %s (D))' % (proto.hexs(TOP), enc([{'a': 'A', 'b': 'B'}, {'b': 1, 'a': 2}]))])
+    for j in range(600 if q else 6000):
+        c = gen_call(rng, dicts=True)
+        op = 'cally' if j % 3 else 'callz'
+        yield dict(tag=c['tag'].replace('lift ', 'lifty ' if op == 'cally' else 'liftz ', 1), lines=[l.replace('(lift call ', '(lift %s ' % op, 1) for l in c['lines']])
     for _ in range(1200 if q else 12000):
         yield gen_lib(rng)
     for _ in range(1200 if q else 12000):
@@ -477,6 +506,17 @@ def run_line(state, sx):
             raise AssertionError('arguments were modified')
         same_types(a[0] if a else kw[TOP], res)
         return 'ok ' + enc(unexo(res))
+    if op in ('cally', 'callz'):
+        # cally: the looped argument has its keys through KEYMAP_Y, the COMPANIONS spell the same keys differently (1.0 for 1, 3.0
+        # for 3): the same key set under python ==.  callz: keys are tuples of mixed content (cannot be sorted, not even by type name)
+        m1, m2 = (KEYMAP_Y, KEYMAP_Y2) if op == 'cally' else (KEYMAP_Z, KEYMAP_Z)
+        a0, kw0 = proto.dec(args[1]), proto.dec(args[2])
+        a = [exo(x, m1 if j == 0 else m2) for j, x in enumerate(a0)]
+        kw = {n: exo(c, m1 if (n == TOP and not a0) else m2) for n, c in kw0.items()}
+        res = lifted(rec)(*a, **kw)
+        same_types(a[0] if a else kw[TOP], res)
+        back = {v: k for k, v in m1.items()}            # 1.0 == 1 and hash(1.0) == hash(1): both spellings map back
+        return 'ok ' + enc(unexo(res, back))
     if op == 'call':
         a, kw = proto.dec(args[1]), proto.dec(args[2])
         before = enc([a, kw])
@@ -540,7 +580,7 @@ def _matches(v, c):
         return isinstance(c, dict) and sorted(c) == sorted(v) and all(_matches(v[k], c[k]) for k in v)
     if isinstance(v, (list, tuple)):
         return isinstance(c, (list, tuple)) and len(c) == len(v) and all(_matches(x, y) for x, y in zip(v, c))
-    return False              # v is a leaf and c a container: the property says broadcast; keep such cases out of 'same'
+    return True               # v is a leaf: whatever was matched down to here (scalar or container) is what f receives, whole
 
 
 def holds_seq(c, n):
@@ -605,10 +645,15 @@ def ref_lift(fn, v, pos, kw):
     return fn(v, *pos, **kw)
 
 
-def clear_expected(line):
-    """expected reply of a `lift call` line when all its companions are clear, else None"""
+CALL_OPS = ('call', 'callx', 'cally', 'callz')
+
+
+def clear_expected(line, pop_axis=False):
+    """expected reply of a `lift call` line when all its companions are clear, else None.  The statement treats a keyword
+    called `axis` like any other ("everything else is broadcast, whether passed positionally or by keyword"); `pop_axis=True`
+    gives what finding K7 describes instead (the keyword never reaches f)"""
     sx = proto.parse(line)
-    if sx[0] != 'lift' or sx[1] not in ('call', 'callx'):
+    if sx[0] != 'lift' or sx[1] not in CALL_OPS:
         return None
     a, kw = proto.dec(sx[3]), proto.dec(sx[4])
     kw = dict(kw)
@@ -618,13 +663,21 @@ def clear_expected(line):
         v, pos = kw.pop(TOP), []
     else:
         return None
-    kw.pop('axis', None)
+    if pop_axis:
+        kw.pop('axis', None)
     if any(clear_kind(v, c) is None for c in list(pos) + list(kw.values())):
         return None
     try:
         return 'ok ' + enc(ref_lift(rec, v, pos, kw))
     except Exception as e:
         return proto.err_reply(e)
+
+
+def has_axis_kw(line):
+    """a `lift call` line that passes a keyword called `axis` together with a looped argument"""
+    sx = proto.parse(line)
+    a, kw = proto.dec(sx[3]), proto.dec(sx[4])
+    return 'axis' in kw and (len(a) > 0 or TOP in kw)
 
 
 def lib_expected(line, mr):
@@ -663,9 +716,15 @@ def compare(case, i, line, ir, mr):
         if proto.same_reply(ir, exp, numeric=False):
             return None
         return 'library function returned %s; leaf function applied to the leaf calls of the model gives %s' % (ir, exp)
+    is_call = line.startswith('(lift call') and proto.parse(line)[1] in CALL_OPS
+    if is_call and has_axis_kw(line):
+        # the model copies the code here (`dropAxis`), so agreement with the model proves nothing: judge the line by the statement
+        exp = clear_expected(line)
+        if exp is not None and not proto.same_reply(ir, exp, numeric=False):
+            return 'lifted call with a keyword called axis returned %s, the statement (a keyword companion is matched / broadcast like a positional one) requires %s' % (ir, exp)
     if proto.same_reply(ir, mr, numeric=False):
         return None
-    if line.startswith('(lift call ') or line.startswith('(lift callx '):
+    if is_call:
         exp = clear_expected(line)
         if exp is not None:
             if not proto.same_reply(ir, exp, numeric=False):
@@ -685,7 +744,7 @@ def nontrivial(line, reply):
         return '(A ' in line
     if sx[0] == 'waiter':
         return '(A ' in line
-    if sx[1] in ('call', 'callx'):
+    if sx[1] in CALL_OPS:
         a = sx[3]
         return len(a) > 1 and isinstance(a[1], list) and len(a[1]) > 1
     if sx[1] == 'lib':
@@ -715,14 +774,20 @@ def exotic(rng, v, nt, keys):
     return v
 
 
-def exo(v):
+KEYMAP_Y = {'a': 1, 'b': 'b', 'c': 3, 'd': 2.5, 'k': None}          # the looped argument of a `cally` line
+KEYMAP_Y2 = {'a': 1.0, 'b': 'b', 'c': 3.0, 'd': 2.5, 'k': None}     # its companions: the same keys (1 == 1.0), spelt as floats
+KEYMAP_Z = {'a': (1, 'x'), 'b': ('x', 1), 'c': (None, 2), 'd': 'd', 'k': (2.5,)}    # `callz`: tuple keys of mixed content
+
+
+def exo(v, keymap=None):
     """deterministic: EVERY tuple of 1..5 items becomes a namedtuple, every dict key goes through KEYMAP"""
+    keymap = KEYMAP if keymap is None else keymap
     if isinstance(v, dict):
-        return {KEYMAP.get(k, k): exo(x) for k, x in v.items()}
+        return {keymap.get(k, k): exo(x, keymap) for k, x in v.items()}
     if isinstance(v, list):
-        return [exo(x) for x in v]
+        return [exo(x, keymap) for x in v]
     if isinstance(v, tuple):
-        items = [exo(x) for x in v]
+        items = [exo(x, keymap) for x in v]
         return _NT[len(items)](*items) if 1 <= len(items) <= 5 else tuple(items)
     return v
 
@@ -730,13 +795,14 @@ def exo(v):
 _KEYBACK = {v: k for k, v in KEYMAP.items()}
 
 
-def unexo(v):
+def unexo(v, back=None):
+    back = _KEYBACK if back is None else back
     if isinstance(v, dict):
-        return {_KEYBACK.get(k, k): unexo(x) for k, x in v.items()}
+        return {back.get(k, k): unexo(x, back) for k, x in v.items()}
     if isinstance(v, list):
-        return [unexo(x) for x in v]
+        return [unexo(x, back) for x in v]
     if isinstance(v, tuple):
-        return tuple(unexo(x) for x in v)
+        return tuple(unexo(x, back) for x in v)
     return v
 
 
@@ -815,6 +881,22 @@ def laws(rng, tier, ctx):
             k3 = (searched(v, b) or searched(v, c)) and outs[2] == 'ok ' + enc(ref_lift_k3(named, v, dict(b=b, c=c)))
             yield Finding('violation', dict(tag='law-broadcast-searched-inside' if k3 else 'law-leaves', lines=[call_line([v], {'b': b, 'c': c})]),
                           'lifted call gives %s, the statement requires %s' % (outs[2], exp))
+    # (1b) positional = keyword passing when the keyword is called `axis` (finding K7: the lifted function never receives it)
+    LA = lifted(with_axis)
+    for _ in range(n // 4):
+        v = rand_struct(rng, rng.choice([1, 2, 3]), top=True)
+        kc, c = rand_companion(rng, v)
+        count += 1
+        outs = []
+        for fn in (lambda: LA(v, c), lambda: LA(v, axis=c)):
+            try:
+                outs.append('ok ' + enc(fn()))
+            except Exception as e:
+                outs.append(proto.err_reply(e))
+        if outs[0] != outs[1]:
+            swallowed = outs[1] == 'ok ' + enc(ref_lift(with_axis, v, [], {}))       # every leaf call got the default: axis never arrived
+            yield Finding('violation', dict(tag='law-axis-keyword-swallowed' if swallowed else 'law-pos-kw', lines=[call_line([v], {'axis': c})]),
+                          'with_axis(a, axis) lifted: companion passed positionally gives %s, passed as axis= gives %s' % (outs[0], outs[1]))
     # (3) zipper: equal lengths zip, scalars and length-1 broadcast, ValueError iff two lengths differ and neither is 1
     for _ in range(n):
         case = gen_zip(rng, 'zipper')
@@ -944,4 +1026,22 @@ def _k3(f):
     return f.case.get('tag') == 'law-broadcast-searched-inside'
 
 
-MATCHERS = {'as_tuple_list_of_one_list': _k2, 'companion_of_other_shape_is_searched_inside': _k3}
+def _k7(f):
+    """a keyword called `axis` is consumed by the decorator: recognised only when the reply is exactly the statement's result of
+    the same call WITHOUT that keyword (a correspondence line), or when law (1b) found every leaf call without it"""
+    if f.kind != 'violation':
+        return False
+    if f.case.get('tag') == 'law-axis-keyword-swallowed':
+        return True
+    i = getattr(f, 'line_index', None)
+    lines = f.case.get('lines') or []
+    if i is None or not f.impl or i >= len(lines) or not lines[i].startswith('(lift call'):
+        return False
+    if not has_axis_kw(lines[i]):
+        return False
+    exp = clear_expected(lines[i], pop_axis=True)
+    return exp is not None and proto.same_reply(f.impl[i], exp, numeric=False)
+
+
+MATCHERS = {'as_tuple_list_of_one_list': _k2, 'companion_of_other_shape_is_searched_inside': _k3,
+            'lifted_function_never_receives_keyword_called_axis': _k7}
